@@ -134,6 +134,8 @@ def differences(a, b, shift):
         out.append(("warnings-differ", f"only original: {[w for w in wa if w not in wb_][:2]} / only transformed: {[w for w in wb_ if w not in wa][:2]}"))
     if (a.itemsets is None) != (b.itemsets is None):
         out.append(("itemsets-differ", ""))
+    elif a.itemsets != b.itemsets:
+        out.append(("itemsets-differ", f"{a.itemsets[:160]!r} vs {b.itemsets[:160]!r}"))
     return out
 
 
@@ -254,7 +256,9 @@ def sweep_form():
         Row("repeat", "begin repeat", "r0", {"label": "R", "repeat_count": "2"}, [Row("q", "text", "t0", {"label": "T"})]),
         Row("q", "text", "dis_off", {"label": "off", "disabled": "yes"}),
         Row("q", "text", "dis_on", {"label": "on", "disabled": "no"}),
+        Row("q", "select_one_external ext", "x0", {"label": "X", "choice_filter": "state=${n0}"}),
     ]
+    f.external_choices = [{"list_name": "ext", "name": "e1", "label": "E1", "state": "1"}, {"list_name": "ext", "name": "e2", "label": "E2", "state": "2"}]
     f.choices = {"l1": [{"name": "a", "label": "A", "image": "ca.png", "audio": "ca.mp3", "video": "ca.mp4", "big-image": "cb.png"}, {"name": "b", "label": "B"}]}
     f.settings = {"form_title": "Sweep", "form_id": "sweep", "version": "7", "default_language": "en", "instance_name": "concat('x', ${n0})", "submission_url": "https://example.org/s",
                   "public_key": "abc", "style": "pages", "auto_send": "true", "auto_delete": "false", "namespaces": 'ex="http://example.org/ex"', "instance_xmlns": "http://example.org/x",
@@ -273,7 +277,8 @@ def column_sweep(ctx):
         ctx.obs("column sweep form rejected: " + a.brief()) if hasattr(ctx, "obs") else None
         return
     n = 0
-    for key, known in (("survey", spelling.KNOWN_SURVEY), ("choices", spelling.KNOWN_CHOICES), ("settings", spelling.KNOWN_SETTINGS)):
+    for key, known in (("survey", spelling.KNOWN_SURVEY), ("choices", spelling.KNOWN_CHOICES), ("settings", spelling.KNOWN_SETTINGS),
+                       ("external_choices", {"list_name", "name", "label"})):
         hdrs, rows = sheets[key]
         for ci, h in enumerate(hdrs):
             if h not in known:
@@ -297,7 +302,8 @@ def column_sweep(ctx):
                     for kind, text in diffs:
                         ctx.viol(f"{kind}:header-case:{key}", f"column sweep, T={done} ({fmt}): {text}"[:900], _wit(form, done, {}, fmt, ts))
             # every documented alias of the column, alone, also upper-cased
-            table = {"survey": spelling.SURVEY_ALIASES, "choices": spelling.CHOICES_ALIASES, "settings": spelling.SETTINGS_ALIASES}[key]
+            table = {"survey": spelling.SURVEY_ALIASES, "choices": spelling.CHOICES_ALIASES, "settings": spelling.SETTINGS_ALIASES,
+                     "external_choices": {"list_name": ["list name"], "name": ["value"], "label": ["caption"]}}[key]
             for alt in table.get(h, ()):
                 for variant in (alt, alt.upper() if "::" not in alt else alt.split("::")[0].upper() + "::" + alt.split("::", 1)[1]):
                     if variant != alt and ":" in alt and "::" not in alt:
